@@ -81,6 +81,17 @@
 (*   FormatInKeyOrder = TRUE   (formatter emits the optional parts in the  *)
 (*                              key order of the input, KeyOrders = all 24)*)
 (*                              -> FormatIgnoresKeyOrder, NoWarning        *)
+(*   SplitLimit = n > 0        (the splitters of the list levels named in  *)
+(*                              LimitedSplits stop after n separators and  *)
+(*                              leave the rest of the text in one piece:   *)
+(*                              re.split(pattern, text, n))                *)
+(*                              -> CountProps of PkgRelationCount for a    *)
+(*                              list of more than n + 1 items; invisible   *)
+(*                              in the closed space of this module, whose  *)
+(*                              lists have at most 3 items                 *)
+(* The list operators (PJoin, PSplitAt, RGroups, FirstOfKind) are written  *)
+(* without linear recursion so that PkgRelationCount and the trace module  *)
+(* can evaluate Format / Parse on fields of a thousand relations.          *)
 (* Not modelled: characters inside a payload token (sampled by the         *)
 (* harness); lower-casing of profile names (identity on the domain: D3).   *)
 (***************************************************************************)
@@ -97,7 +108,9 @@ CONSTANTS MaxConj, MaxAlt,       \* list shape bounds
           RestrictionsFirst,     \* negative control (formatter)
           IgnoreNegation,        \* negative control (parser)
           PipeFirst,             \* negative control (parser)
-          FormatInKeyOrder       \* negative control (formatter)
+          FormatInKeyOrder,      \* negative control (formatter)
+          SplitLimit,            \* negative control (parser): 0 = none; n > 0: the splitters of the list levels
+          LimitedSplits          \*   in LimitedSplits ("conj", "alt", "arch", "groups", "terms") stop after n separators
 
 VARIABLES rel,                   \* the relation built so far
           ctx,                   \* kind of the context atoms of this relation
@@ -127,17 +140,22 @@ KindNames == <<"name", "colon", "qual", "lpar", "op", "ver", "rpar", "lbr", "ban
 KindNo == [name |-> 1, colon |-> 2, qual |-> 3, lpar |-> 4, op |-> 5, ver |-> 6, rpar |-> 7, lbr |-> 8,
            bang |-> 9, arch |-> 10, rbr |-> 11, lt |-> 12, prof |-> 13, gt |-> 14, comma |-> 15,
            pipe |-> 16, sp |-> 17, x |-> 18]
-\* integer code of a token (compact CASE lines / trace files): kind * 1000 + id, Bad as 999
-EncTok(t) == KindNo[t.k] * 1000 + (IF t.id = Bad THEN 999 ELSE t.id)
-DecTok(c) == Tk(KindNames[c \div 1000], IF c % 1000 = 999 THEN Bad ELSE c % 1000)
+\* integer code of a token (compact CASE lines / trace files): kind * TokBase + id, Bad as TokBase - 1
+\* (ids of long lists -- PkgRelationCount, recorded fields of a thousand relations -- go into the thousands)
+TokBase == 100000
+EncTok(t) == KindNo[t.k] * TokBase + (IF t.id = Bad THEN TokBase - 1 ELSE t.id)
+DecTok(c) == Tk(KindNames[c \div TokBase], IF c % TokBase = TokBase - 1 THEN Bad ELSE c % TokBase)
 ASSUME \A i \in 1..Len(KindNames) : KindNo[KindNames[i]] = i
 
 KindAt(t, i) == IF i >= 1 /\ i <= Len(t) THEN t[i].k ELSE "end"
 
-RECURSIVE PJoin(_, _)
-PJoin(ss, sep) == IF Len(ss) = 0 THEN <<>>
-                  ELSE IF Len(ss) = 1 THEN ss[1]
-                  ELSE ss[1] \o sep \o PJoin(Tail(ss), sep)
+\* sep.join(ss); halving keeps the recursion depth logarithmic (lists of a thousand items: PkgRelationCount)
+RECURSIVE PJoinSub(_, _, _, _)
+PJoinSub(ss, sep, lo, hi) == IF lo > hi THEN <<>>
+                             ELSE IF lo = hi THEN ss[lo]
+                             ELSE LET mid == (lo + hi) \div 2
+                                  IN PJoinSub(ss, sep, lo, mid) \o sep \o PJoinSub(ss, sep, mid + 1, hi)
+PJoin(ss, sep) == PJoinSub(ss, sep, 1, Len(ss))
 
 ----------------------------------------------------------------------------
 \* structures
@@ -192,21 +210,29 @@ SkipSpBack(t, i) == IF KindAt(t, i) = "sp" THEN SkipSpBack(t, i - 1) ELSE i
 PStrip(t) == LET lo == SkipSp(t, 1) hi == SkipSpBack(t, Len(t))                     \* str.strip()
              IN IF lo > hi THEN <<>> ELSE SubSeq(t, lo, hi)
 
-\* re.split at every token of `kind` (pieces may be empty)
-SepPositions(t, kind) == {i \in 1..Len(t) : t[i].k = kind}
+\* re.split at every token of `kind` (pieces may be empty): the separator positions in ascending
+\* order, the pieces between them.  No recursion: fields of a thousand relations are split as well.
+Indices(t) == [i \in 1..Len(t) |-> i]
+SepPositions(t, kind) == SelectSeq(Indices(t), LAMBDA i : t[i].k = kind)
+\* re.split(pattern, text, maxsplit): only the first maxsplit separators split, the rest of the text
+\* stays ONE piece (negative control SplitLimit; lv names the list level the splitter serves)
+Limited(lv) == SplitLimit > 0 /\ lv \in LimitedSplits
+NSplits(pos, lv) == IF Limited(lv) /\ Len(pos) > SplitLimit THEN SplitLimit ELSE Len(pos)
 SetMin(S) == CHOOSE x \in S : \A y \in S : x <= y
-RECURSIVE PiecesFrom(_, _, _)
-PiecesFrom(t, S, from) ==
-   IF S = {} THEN <<SubSeq(t, from, Len(t))>>
-   ELSE LET m == SetMin(S) IN <<SubSeq(t, from, m - 1)>> \o PiecesFrom(t, S \ {m}, m + 1)
-PSplitAt(t, kind) == PiecesFrom(t, SepPositions(t, kind), 1)
+PSplitAt(t, kind, lv) ==
+   LET pos == SepPositions(t, kind)
+       np  == NSplits(pos, lv)
+   IN [k \in 1..(np + 1) |-> SubSeq(t, IF k = 1 THEN 1 ELSE pos[k - 1] + 1,
+                                      IF k = np + 1 THEN Len(t) ELSE pos[k] - 1)]
 \* the comma / pipe splitters \s*,\s* and \s*\|\s* absorb the blanks next to the separator
-PSplitSep(t, kind) == LET ps == PSplitAt(t, kind) IN [i \in 1..Len(ps) |-> PStrip(ps[i])]
+PSplitSep(t, kind) == LET ps == PSplitAt(t, kind, IF kind = "comma" THEN "conj" ELSE "alt")
+                      IN [i \in 1..Len(ps) |-> PStrip(ps[i])]
 \* __blank_sep_RE.split
-PSplitBlank(t) == PSplitAt(t, "sp")
+PSplitBlank(t, lv) == PSplitAt(t, "sp", lv)
 
-RECURSIVE FirstOfKind(_, _, _)
-FirstOfKind(t, i, kind) == IF i > Len(t) \/ t[i].k = kind THEN i ELSE FirstOfKind(t, i + 1, kind)
+\* first position >= i of a token of `kind` (Len(t) + 1: none)
+FirstOfKind(t, i, kind) == LET S == {x \in i..Len(t) : t[x].k = kind}
+                           IN IF S = {} THEN (IF i > Len(t) THEN i ELSE Len(t) + 1) ELSE SetMin(S)
 RECURSIVE LastOfKind(_, _, _)
 LastOfKind(t, i, kind) == IF i < 1 \/ t[i].k = kind THEN i ELSE LastOfKind(t, i - 1, kind)
 
@@ -216,7 +242,7 @@ PayloadId(item, kind) == IF Len(item) = 1 /\ item[1].k = kind THEN item[1].id EL
 ArchEntry(item) == IF ~IgnoreNegation /\ KindAt(item, 1) = "bang"
                    THEN [e |-> FALSE, id |-> PayloadId(Tail(item), "arch")]
                    ELSE [e |-> TRUE,  id |-> PayloadId(item, "arch")]
-ParseArchs(content) == LET items == PSplitBlank(PStrip(content))
+ParseArchs(content) == LET items == PSplitBlank(PStrip(content), "arch")
                        IN [l   |-> [i \in 1..Len(items) |-> ArchEntry(items[i])],
                            exc |-> \E i \in 1..Len(items) : items[i] = <<>>]
 
@@ -227,18 +253,19 @@ RECURSIVE StripHi(_, _)
 StripHi(t, i) == IF KindAt(t, i) \in {"lt", "gt", "sp"} THEN StripHi(t, i - 1) ELSE i
 StripAngles(t) == LET lo == StripLo(t, 1) hi == StripHi(t, Len(t))
                   IN IF lo > hi THEN <<>> ELSE SubSeq(t, lo, hi)
-RECURSIVE RGroups(_, _, _)
-RGroups(t, i, cur) ==
-   IF i > Len(t) THEN <<cur>>
-   ELSE IF t[i].k = "gt" /\ KindAt(t, SkipSp(t, i + 1)) = "lt"
-        THEN <<cur>> \o RGroups(t, SkipSp(t, i + 1) + 1, <<>>)
-        ELSE RGroups(t, i + 1, Append(cur, t[i]))
+\* split at '>\s*<': a separator starts at a '>' whose next non-blank token is '<' and ends at that '<'
+\* (two separators cannot overlap: the next one starts at a '>' behind this '<')
+RGroups(t) ==
+   LET pos == SelectSeq(Indices(t), LAMBDA i : t[i].k = "gt" /\ KindAt(t, SkipSp(t, i + 1)) = "lt")
+       np  == NSplits(pos, "groups")
+   IN [k \in 1..(np + 1) |-> SubSeq(t, IF k = 1 THEN 1 ELSE SkipSp(t, pos[k - 1] + 1) + 1,
+                                      IF k = np + 1 THEN Len(t) ELSE pos[k] - 1)]
 TermEntry(item) == IF ~IgnoreNegation /\ KindAt(item, 1) = "bang" /\ Len(item) >= 2
                    THEN [e |-> FALSE, id |-> PayloadId(Tail(item), "prof")]
                    ELSE [e |-> TRUE,  id |-> PayloadId(item, "prof")]
-ParseGroup(g) == LET items == SelectSeq(PSplitBlank(g), LAMBDA it : it # <<>>)
+ParseGroup(g) == LET items == SelectSeq(PSplitBlank(g, "terms"), LAMBDA it : it # <<>>)
                  IN [i \in 1..Len(items) |-> TermEntry(items[i])]
-ParseRestrictions(content) == LET gs == RGroups(StripAngles(content), 1, <<>>)
+ParseRestrictions(content) == LET gs == RGroups(StripAngles(content))
                               IN [i \in 1..Len(gs) |-> ParseGroup(gs[i])]
 
 NoMatch == [ok |-> FALSE, exc |-> FALSE, atom |-> RawAtom]
